@@ -8,16 +8,24 @@ result is compared with reference values computed from the case description (exa
 `fractions.Fraction` / `decimal.Decimal`).
 """
 import contextlib
+import copy
+import gc
 import io
 import itertools
 import math
+import os
+import pickle
+import signal
+import tempfile
+import traceback
+import warnings
 from decimal import Decimal, ROUND_HALF_EVEN
 from fractions import Fraction
 from types import SimpleNamespace
 
 import numpy as np
 
-from mc.core import CaseResult, Space, run_check, innermost_partitura_frame, exc_text, Hang
+from mc.core import CaseResult, Space, run_check, innermost_partitura_frame, exc_text, Hang, CASE_TIMEOUT
 from mc import c07_alpha as A
 
 PID = "C07"
@@ -26,7 +34,8 @@ RULE = (
     "full products of the per-field alphabets where small, otherwise all pairs of fields complete "
     "with the remaining fields cycled; free text of info lines = all token sequences up to a length over "
     "the characters that structure a line; every case is distinct by construction; non-trivial = the "
-    "line was written and parsed back (all cases)"
+    "line was written and parsed back (all cases); a history case = a sequence of file loads followed by the "
+    "line oracle on the lines of one version (non-trivial: always)"
 )
 ASSUMPTIONS = [
     "field values are given in the canonical types of the line classes (upper-case step, int or None "
@@ -45,9 +54,13 @@ ASSUMPTIONS = [
     "text-valued list attributes (subtitle, tempoIndication, beatSubDivision) are only checked for kind",
     "free text is given without outer white space (the formats strip it); the empty string inside the quotes "
     "of a 0.x value and as a list element is not generated (its text is not distinguishable from other values)",
+    "the statement holds for a line whatever match files or lines were read before in the same process (the parser "
+    "lists and field tables are shared module state); a file whose lines are distinct, of one version, start with "
+    "the version line and have unique anchors/ids is read line by line with the dispatcher of its version, so "
+    "load_matchfile returns one object of the same kind and text per line; a file without version line is 0.1.0",
     "trusted: Python re/str/float formatting, decimal, fractions, numpy integer arithmetic",
 ]
-CHUNK = 200
+CHUNK = 50
 
 # ------------------------------------------------------------------------------------------------
 # lazy access to the implementation
@@ -588,9 +601,9 @@ def matchline_of(o):
     return o.matchline
 
 
-def eval_line(case, res):
+def eval_line(case, res, pre=""):
     k, v = case["k"], case["v"]
-    ctx = "%s %s" % (k, v)
+    ctx = "%s%s %s" % (pre, k, v)
     vws = views(case)
     ok, x = call(res, "construct", ctx, build, case)
     if not ok:
@@ -912,6 +925,152 @@ def eval_version(case, res):
     return "ok"
 
 
+# ------------------------------------------------------------------------------------------------
+# call histories: match files of every version loaded one after the other, then lines parsed
+#
+# The statement holds for every line whatever was read before: the parser lists and field tables are
+# per-version module state shared by all calls of a process.  A history case loads files of given
+# versions in sequence with the public loaders and then evaluates the complete line oracle
+# (eval_line) on lines of every kind of one version.
+
+FILE_FORMS = ["none"] + A.ALL_VERSIONS  # "none" = 0.1.0 content without a version line
+LOADERS = ["matchfile", "match"]
+PROBE_DIAG = 2
+NBLOCKS_HISTORY = 128
+_PROBES = {}
+_FILES = {}
+
+
+def form_version(form):
+    return "0.1.0" if form == "none" else form
+
+
+def probe_cases(v):
+    """lines of version v: of every family (kind, version[, attribute]) of the line spaces the first
+    PROBE_DIAG cases of the diagonal of its alphabets (every field takes its j-th value, j < PROBE_DIAG)"""
+    if v not in _PROBES:
+        out = []
+        for name, kind, fv, fields, fixed in family_specs(False):
+            if fv != v:
+                continue
+            prev = None
+            for j in range(PROBE_DIAG):
+                idx = tuple(j % len(vals) for _, vals in fields)
+                if idx == prev:
+                    continue
+                prev = idx
+                a = nest(dict((n, vals[i]) for (n, vals), i in zip(fields, idx)))
+                if fixed:
+                    a.update(fixed)
+                out.append(dict(k=kind, v=v, a=a))
+        _PROBES[v] = out
+    return _PROBES[v]
+
+
+def file_cases(form):
+    """the lines of the file of one version: the version line (unless form is "none") and every probe
+    line of the version that is a line of its own in a file, with score anchors and performed-note ids
+    renumbered so that they are unique in the file (the loader removes duplicated ids by design)"""
+    if form not in _FILES:
+        v = form_version(form)
+        lines = []
+        if form != "none":
+            lines.append(dict(k="info", v=v, a=dict(attr="matchFileVersion", val=dict(t="version", x=list(A.vt(v))))))
+        n = 0
+        for c in probe_cases(v):
+            if c["k"] in NOT_DISPATCHED or (c["k"] == "info" and c["a"]["attr"] == "matchFileVersion"):
+                continue
+            if c["k"] == "info" and c["a"]["attr"] in ("midiClockUnits", "midiClockRate") and c["a"]["val"]["x"] == 0:
+                continue  # a header without a MIDI clock: load_match would stop before it has built anything
+            c = copy.deepcopy(c)
+            a = c["a"]
+            n += 1
+            if "s" in a:
+                a["s"]["anchor"] = "s%d" % n
+            if "n" in a:
+                a["n"]["id"] = "p%d" % n
+            if "anchor" in a:
+                a["anchor"] = "s%d" % n
+            lines.append(c)
+        _FILES[form] = lines
+    return _FILES[form]
+
+
+def load_quiet(loader, fn):
+    with quiet(), warnings.catch_warnings():
+        warnings.simplefilter("ignore")
+        if loader == "matchfile":
+            return M().I.load_matchfile(fn)
+        return M().I.load_match(fn, create_score=True)
+
+
+def loaded_lines(mf):
+    return [(type(ln).__name__, ln.matchline) for ln in mf.lines]
+
+
+def eval_history(case, res):
+    a = case["a"]
+    done = []
+    marks = []
+    nstates = 0
+    with tempfile.TemporaryDirectory(prefix="c07-") as tmp:
+        for step, (form, loader) in enumerate(a["ops"]):
+            name = "%s(%s)" % ("load_matchfile" if loader == "matchfile" else "load_match", form)
+            ctx = "history [%s] then %s" % (", ".join(done), name)
+            expected = []
+            for c in file_cases(form):
+                ok, x = call(res, "construct", ctx, build, c)
+                if not ok:
+                    return "construct-exc"
+                ok, t = call(res, "write", ctx, matchline_of, x)
+                if not ok:
+                    return "write-exc"
+                expected.append((type(x).__name__, t))
+            fn = os.path.join(tmp, "f%d.match" % step)
+            with open(fn, "w") as f:
+                f.write("\n".join(t for _, t in expected) + "\n")
+            if loader == "matchfile":
+                ok, mf = call(res, "file-load", ctx, load_quiet, loader, fn)
+                if not ok:
+                    return "load-exc"
+                ok, obs = call(res, "file-load", ctx, loaded_lines, mf)
+                if not ok:
+                    return "load-exc"
+                # every line of the file is a line of its kind with the written text (duplicates are
+                # dropped by design: the file has none; the order of the lines is not compared)
+                exp = sorted(set(expected))
+                nstates += len(exp)
+                if sorted(obs) != exp:
+                    missing = [e for e in exp if e not in obs]
+                    extra = [o for o in obs if o not in exp]
+                    res.fail("file-lines-same-kind-and-text", expected=missing[:4] or "%d lines" % len(exp),
+                             observed=(extra[:4] or "%d lines" % len(obs)) if extra or not missing else "not in the loaded file",
+                             where="importmatch.load_matchfile", detail="%s: %d of %d lines differ" % (ctx, len(missing) + len(extra), len(exp)))
+                    return "file-lines"
+                marks.append("F")
+            else:
+                # load_match = load_matchfile + performance/score construction; what it builds belongs to other
+                # properties and is not compared here (it may reject these synthetic files): it is a history step
+                res.transitions += 1
+                try:
+                    load_quiet(loader, fn)
+                    marks.append("M")
+                except Hang:
+                    raise
+                except Exception:
+                    marks.append("Mx")
+            done.append(name)
+    pre = "history [%s] then " % ", ".join(done)
+    for c in probe_cases(a["probe"]):
+        nstates += 1
+        eval_line(c, res, pre)
+        if res.violations:
+            break
+    res.states = max(1, nstates)
+    res.traces = max(1, nstates)
+    return "len%d-%s" % (len(done), "".join(sorted(set(marks))) or "-")
+
+
 def eval_case(case):
     res = CaseResult(states=1, transitions=0, traces=1)
     k = case["k"]
@@ -923,6 +1082,8 @@ def eval_case(case):
         out = eval_time(case, res)
     elif k == "version":
         out = eval_version(case, res)
+    elif k == "history":
+        out = eval_history_isolated(case, res)
     else:
         out = eval_line(case, res)
     if k == "info" and out == "ok" and case["a"]["val"]["t"] in ("str", "list"):
@@ -1087,13 +1248,14 @@ def gen(kind, v, fields, limit, fixed=None):
         yield dict(k=kind, v=v, a=a)
 
 
-def families(tier_x, limit):
-    """name -> list of zero-arg generators; tier_x = extended alphabets (thorough scope)"""
+def family_specs(tier_x):
+    """[(space name, kind, version, fields, fixed)] - one entry per (kind, version[, attribute]) family;
+    tier_x = extended alphabets (thorough scope)"""
     x = tier_x
-    fam = {}
+    specs = []
 
     def add(name, kind, v, fields, fixed=None):
-        fam.setdefault(name, []).append(lambda: gen(kind, v, fields, limit, fixed))
+        specs.append((name, kind, v, fields, fixed))
 
     for v in A.ALL_VERSIONS:
         add("snote", "snote", v, f_snote(v, x, False))
@@ -1128,6 +1290,15 @@ def families(tier_x, limit):
     add("stime-ptime", "stime", v, st)
     add("stime-ptime", "ptime", v, [("onsets", onsets)])
     add("stime-ptime", "stimeptime", v, [("st." + n, vals) for n, vals in st] + [("pt.onsets", onsets)])
+    return specs
+
+
+def families(tier_x, limit):
+    """name -> list of zero-arg generators"""
+    fam = {}
+    for name, kind, v, fields, fixed in family_specs(tier_x):
+        fam.setdefault(name, []).append(
+            lambda kind=kind, v=v, fields=fields, fixed=fixed: gen(kind, v, fields, limit, fixed))
     return fam
 
 
@@ -1233,6 +1404,98 @@ def version_cases(x):
                 yield dict(k="version", v="-", a=dict(ver=[a, b, c]))
 
 
+_WARM = False
+
+
+def eval_history_isolated(case, res):
+    """eval_history in a forked child of the worker: whatever the loads of one history leave behind in the
+    modules under test cannot reach the next case (same case => same verdict, also on a tree with a defect)"""
+    global _WARM
+    if not _WARM:
+        # once per worker: modules imported, case tables built and the line operations run once (only parse/format
+        # calls, as in the line spaces; no file is loaded in the worker itself), so that the children start warm
+        _WARM = True
+        for form in FILE_FORMS:
+            file_cases(form)
+        scratch = CaseResult(states=1, transitions=0, traces=1)
+        for v in A.ALL_VERSIONS:
+            for c in probe_cases(v):
+                eval_line(c, scratch)
+        gc.collect()
+        gc.freeze()
+    rfd, wfd = os.pipe()
+    pid = os.fork()
+    if pid == 0:
+        code = 1
+        try:
+            gc.disable()  # short-lived: a collection would only copy the pages shared with the worker
+            os.close(rfd)
+            # interval timers are not inherited: the child has its own CPU-time watchdog
+            signal.setitimer(signal.ITIMER_REAL, 0)
+            signal.setitimer(signal.ITIMER_PROF, CASE_TIMEOUT, 2.0)
+            sub = CaseResult(states=1, transitions=0, traces=1)
+            try:
+                out = eval_history(case, sub)
+            except Hang as ex:
+                out = "hang"
+                sub.fail("terminates", kind="hang", observed=str(ex), detail="history %r" % (case["a"],))
+            finally:
+                signal.setitimer(signal.ITIMER_PROF, 0)
+            data = pickle.dumps((out, sub.states, sub.transitions, sub.traces, sub.violations))
+            while data:
+                n = os.write(wfd, data)
+                data = data[n:]
+            code = 0
+        except BaseException:  # reported by the parent as a harness error (no result arrives)
+            traceback.print_exc()
+        finally:
+            os._exit(code)
+    os.close(wfd)
+    buf = []
+    try:
+        try:
+            while True:
+                b = os.read(rfd, 1 << 16)
+                if not b:
+                    break
+                buf.append(b)
+        except BaseException:
+            try:
+                os.kill(pid, signal.SIGKILL)
+            except OSError:
+                pass
+            raise
+    finally:
+        os.close(rfd)
+        while True:
+            try:
+                os.waitpid(pid, 0)
+                break
+            except InterruptedError:
+                continue
+            except ChildProcessError:
+                break
+    if not buf:
+        raise RuntimeError("history child process returned nothing")
+    out, res.states, res.transitions, res.traces, viols = pickle.loads(b"".join(buf))
+    res.violations.extend(viols)
+    return out
+
+
+def history_cases(lengths, loaders):
+    """all sequences of the given lengths over {file form} x loaders, each with every probe version"""
+    ops = [[form, loader] for form in FILE_FORMS for loader in loaders]
+    for n in lengths:
+        for seq in itertools.product(ops, repeat=n):
+            for pv in A.ALL_VERSIONS:
+                yield dict(k="history", v="-", a=dict(ops=[list(o) for o in seq], probe=pv))
+
+
+def history_in_core(case):
+    ops = case["a"]["ops"]
+    return len(ops) <= 2 and all(loader == "matchfile" for _, loader in ops)
+
+
 QUICK_LIMIT = 1500
 THOROUGH_LIMIT = 45000
 NBLOCKS = 8
@@ -1263,6 +1526,14 @@ BOUNDS = {
     "keysig": "key signatures: 30 keys, all key/alternative pairs, list forms, in the four spellings; four historical 0.1.0 and six 0.3.0 text variants read first",
     "timesig": "time signatures n/d with n<=16(32), d in 1..64, plain and list spelling, list tails",
     "version": "version numbers (a,b,c) and the historical two-number spelling",
+    "history": "call histories: all sequences of 0-3 loads over {0.1.0 file without version line, files of 0.1.0, 0.2.0, 0.3.0, "
+               "0.4.0, 0.5.0, 1.0.0} x {load_matchfile, load_match(create_score=True)}, followed by the complete line oracle (write, "
+               "parse, dispatch, rewrite, to_v1) on the lines of one version, x every version 0.1.0-1.0.0; lines of a version = of "
+               "every (kind, version, attribute) family of the line spaces the first 2 cases of the diagonal of its alphabets; the "
+               "file of a version = its version line + all of these lines that stand alone in a file (without the header lines "
+               "that set a MIDI clock of 0), anchors and note ids renumbered to be unique; after every load_matchfile the loaded "
+               "lines are compared with the written lines (kind and text, order not compared); the result of load_match is not "
+               "compared",
 }
 
 
@@ -1304,6 +1575,17 @@ def spaces(tier, seed):
         if extra is not None:
             how += "; plus every %d-th case (offset VERIF_SEED mod %d) of the thorough enumeration" % (NBLOCKS, NBLOCKS)
         out.append(Space(name, cases, exhaustive=True, bounds=BOUNDS[name] + " - " + how))
+
+    def hist_cases():
+        if thorough:
+            return history_cases((0, 1, 2, 3), LOADERS)
+        rest = (c for c in history_cases((0, 1, 2, 3), LOADERS) if not history_in_core(c))
+        return itertools.chain(history_cases((0, 1, 2), LOADERS[:1]),
+                               A.shard(rest, seed % NBLOCKS_HISTORY, NBLOCKS_HISTORY))
+
+    out.append(Space("history", hist_cases, exhaustive=True, bounds=BOUNDS["history"] + (
+        " - complete" if thorough else " - complete core: 0-2 loads with load_matchfile; plus every %d-th case (offset VERIF_SEED "
+        "mod %d) of the rest of the thorough enumeration" % (NBLOCKS_HISTORY, NBLOCKS_HISTORY))))
     return out
 
 
